@@ -1059,7 +1059,7 @@ SDcreate(int32       fid,  /* IN: file ID */
     NC_dim *newdim = NULL;
     int32   sdsid;
     nc_type nctype;
-    char    dimname[H4_MAX_NC_NAME];
+    char    dimname[H4_MAX_NC_NAME + 1];
     int     num;
     int    *dims = NULL;
     int     is_ragged;
